@@ -6,7 +6,8 @@
 // `Choice(u8)`, `From<u8> for Choice`, `CtOption { value, is_some }`, `CtOption::new`). Trust status: the
 // same as an `assume_specification` of an external function -- reported under assumed / trusted base.
 // The /repo functions below (`From<ConstChoice> for Choice`, `ConstantTimeEq for Uint`) are extracted and
-// verified against that model as usual.
+// verified against that model as usual. The model functions are marked `external_body` so that the trusted-base
+// scan lists them (their contracts are assumptions about `subtle`, not proved facts).
 use vstd::prelude::*;
 use crate::speclib::*;
 use crate::l1_choice::*;
@@ -20,6 +21,7 @@ pub struct Choice(pub u8);
 impl Choice {
     pub open spec fn wf(&self) -> bool { self.0 == 0 || self.0 == 1 }
     pub open spec fn t(&self) -> bool { self.0 == 1 }
+    #[verifier::external_body]
     pub fn unwrap_u8(&self) -> (r: u8)
         ensures r == self.0
     { self.0 }
@@ -27,7 +29,8 @@ impl Choice {
 
 impl From<u8> for Choice {
     // subtle: `debug_assert!((input == 0u8) | (input == 1u8)); Choice(black_box(input))`
-    // (a trait method cannot carry a `requires`; callers below show `input <= 1` at the call site)
+    // (a trait method cannot carry a `requires`, so the debug assertion is not an obligation here)
+    #[verifier::external_body]
     fn from(input: u8) -> (r: Choice)
         ensures r.0 == input
     { Choice(input) }
@@ -38,16 +41,25 @@ impl vstd::std_specs::convert::FromSpecImpl<u8> for Choice {
     open spec fn from_spec(input: u8) -> Choice { Choice(input) }
 }
 
+// `From<ConstChoice> for Choice` (a /repo impl, extracted below): no vstd-level from_spec is claimed for it; its
+// behaviour is stated by the `ensures` of the extracted function
+impl vstd::std_specs::convert::FromSpecImpl<ConstChoice> for Choice {
+    open spec fn obeys_from_spec() -> bool { false }
+    open spec fn from_spec(c: ConstChoice) -> Choice { Choice(0) }
+}
+
 pub struct CtOption<T> {
     pub value: T,
     pub is_some: Choice,
 }
 
 impl<T> CtOption<T> {
+    #[verifier::external_body]
     pub fn new(value: T, is_some: Choice) -> (r: CtOption<T>)
         ensures r.value == value, r.is_some == is_some
     { CtOption { value: value, is_some: is_some } }
 
+    #[verifier::external_body]
     pub fn is_some(&self) -> (r: Choice)
         ensures r == self.is_some
     { self.is_some }
@@ -60,16 +72,15 @@ pub trait ConstantTimeEq {
 // ---- /repo glue
 // stub: the body is `Choice::from(choice.to_u8())`; `ConstChoice::to_u8` (l1_choice) carries `requires self.wf()`
 // and a trait method (`From::from`) cannot state a precondition, so the body cannot be checked against it.
-//@@ fn src/const_choice.rs | impl From<ConstChoice> for Choice | from | stub | props C06 C11
+//@@ fn src/const_choice.rs | impl From<ConstChoice> for Choice | from | body | props C06 C11
 impl From<ConstChoice> for Choice {
-#[verifier::external_body]
 fn from(choice: ConstChoice) -> (ret__: Self)
 //@+
     ensures choice.wf() ==> ret__.wf() && ret__.t() == choice.t()
 //@-
 {
-    unimplemented!()
-}
+        Choice::from(choice.to_u8())
+    }
 }
 //@@ end
 //@@ fn src/uint/cmp.rs | impl<const LIMBS: usize> ConstantTimeEq for Uint<LIMBS> | ct_eq | body | props C06 C11
